@@ -443,6 +443,13 @@ func (s *serveReplayer) replayTable(v serveVec, rng *rand.Rand) {
 				if rng.Intn(2) == 0 {
 					query = "q=1&r=%2F"
 				}
+				// FoxServe's reply is an operator of (table, configuration, request): what the same router answered
+				// before - the same method and path asked with other Hosts - must not matter
+				if s.g.Host != "" && rng.Intn(2) == 0 {
+					for _, foreign := range []string{"b.b", "x.y", ""} {
+						observeServe(rt, m, foreign, path, "")
+					}
+				}
 				got := observeServe(rt, m, s.g.Host, path, query)
 				s.replies.Add(1)
 				switch want.Kind {
